@@ -29,7 +29,8 @@ for d in sorted(os.listdir(SEEDED)):
     t0 = time.time()
     try:
         p = subprocess.run([os.path.join(VERIF, "check"), prop, "--tier", "quick"], cwd=VERIF, stdout=subprocess.PIPE,
-                           stderr=subprocess.STDOUT, text=True, timeout=3600)
+                           stderr=subprocess.STDOUT, text=True, timeout=3600,
+                           env=dict(os.environ, MRVERIF_EVIDENCE_DIR="/var/tmp/mrverif-seeded-evidence"))
         lines = [l for l in p.stdout.split("\n") if l.startswith("VIOLATION") or l.startswith("OK ") or l.startswith("INFRA")]
         rc = p.returncode
     except subprocess.TimeoutExpired:
